@@ -189,3 +189,27 @@ Definition pay_run (w : payw) (ops : list (Z * pay_op)) : payw := fold_left pay_
 Definition tok_total (mint : Z) (ts : list tokacct) : Z :=
   fold_right (fun t acc => (if tk_mint t =? mint then tk_amt t else 0) + acc) 0 ts.
 Definition tok_amt (ts : list tokacct) (k : Z) : Z := match find_tok ts k with Some t => tk_amt t | None => 0 end.
+
+(* ---------------------------------------------------------------- the fixture and the observation of the correspondence
+   (used by the extracted driver AND by the in-Coq evaluation of sampled cases, so that both run the same definitions):
+   a bank with asset share value 1 holding one deposit of `dep` native units made at t0, emissions set up at t0
+   (lending side active, `rate`, `total` funded), fee / insurance vaults holding fee0 / ins0, seven empty token accounts *)
+Definition PAY_TOK_IDS : list Z := [10; 11; 12; 20; 1000; 1001; 1002].
+Definition pay_fixture (dep rate total fee0 ins0 t0 : Z) : payw :=
+  mkPayW 1 2 0 0 0 fee0 ins0 total
+    (map (fun i => mkTok i (if i <? 20 then MINT_BANK else MINT_EM) 0) PAY_TOK_IDS)
+    (mkBank ONE ONE (dep * ONE) 0 0 0 0 t0 U64_MAX U64_MAX 0 6 2 rate (total * ONE) 1 0 1 (mkIR 0 0 0 0 0 0 0 0 0 [] 0))
+    (mkBal true 1 0 (dep * ONE) 0 0 t0) t0 t0.
+Definition pay_obs (w : payw) : list Z :=
+  [y_fee_vault w; y_ins_vault w; y_em_vault w; y_fee_dest w; y_em_wallet w; y_acct_last w; bl_em (y_bal w);
+   b_em_rem (y_bank w); bl_last (y_bal w)] ++ map (tok_amt (y_toks w)) PAY_TOK_IDS.
+Definition err_code (e : err) : Z := match e with EPanic => -1 | ENone => -2 | E c => c end.
+Fixpoint pay_trace (w : payw) (ops : list (Z * pay_op)) : list (Z * list Z) :=
+  match ops with
+  | [] => []
+  | (s, o) :: r =>
+      match pay_step w s o with
+      | Ok w' => (0, pay_obs w') :: pay_trace w' r
+      | Err e => (err_code e, pay_obs w) :: pay_trace w r
+      end
+  end.
